@@ -9,13 +9,32 @@ import (
 
 var (
 	flavours = []string{"cache-node", "cache-cluster", "sqlc-node", "sqlc-cluster"}
-	expiries = []time.Duration{0, time.Second, 2 * time.Second, 7 * time.Second, 20 * time.Second, 100 * time.Second, time.Hour}
-	nfExps   = []time.Duration{0, time.Second, 3 * time.Second, 10 * time.Second, 40 * time.Second}
-	setExps  = []time.Duration{400 * time.Millisecond, time.Second, 1500 * time.Millisecond, 3 * time.Second, 10 * time.Second, 90 * time.Second}
+	// values for cache.WithExpiry / cache.WithNotFoundExpiry; absent = option not passed.
+	// Non-positive: what an unset configuration field or a -1 sentinel hands to the option.
+	absent   = time.Duration(1<<63 - 1)
+	expiries = []time.Duration{absent, absent, absent, 0, -1, -time.Second, 300 * time.Millisecond, 999 * time.Millisecond, time.Second, time.Second, 2 * time.Second, 2 * time.Second,
+		7 * time.Second, 7 * time.Second, 20 * time.Second, 20 * time.Second, 100 * time.Second, 100 * time.Second, time.Hour, time.Hour}
+	nfExps = []time.Duration{absent, absent, absent, 0, -1, -time.Minute, 300 * time.Millisecond, 999 * time.Millisecond, time.Second, time.Second, 3 * time.Second, 3 * time.Second,
+		10 * time.Second, 10 * time.Second, 40 * time.Second, 40 * time.Second}
+	burstExps = []time.Duration{absent, absent, 0, -1, 300 * time.Millisecond, time.Second, 7 * time.Second, 7 * time.Second, 20 * time.Second, 20 * time.Second,
+		100 * time.Second, 100 * time.Second, time.Hour, time.Hour}
+	setExps = []time.Duration{400 * time.Millisecond, time.Second, 1500 * time.Millisecond, 3 * time.Second, 10 * time.Second, 90 * time.Second}
 )
 
 func genConfig(r *kit.Rand) config {
-	return config{Flavour: kit.Choose(r, flavours), E: kit.Choose(r, expiries), NE: kit.Choose(r, nfExps), StrPK: r.Chance(0.3), NoCtx: r.Chance(0.25)}
+	cfg := config{Flavour: kit.Choose(r, flavours), StrPK: r.Chance(0.3), NoCtx: r.Chance(0.25)}
+	cfg.setExpiries(kit.Choose(r, expiries), kit.Choose(r, nfExps))
+	return cfg
+}
+
+func (c *config) setExpiries(e, ne time.Duration) {
+	c.E, c.HasE, c.NE, c.HasNE = e, e != absent, ne, ne != absent
+	if !c.HasE {
+		c.E = 0
+	}
+	if !c.HasNE {
+		c.NE = 0
+	}
 }
 
 func isSQL(cfg config) bool { return cfg.Flavour == "sqlc-node" || cfg.Flavour == "sqlc-cluster" }
@@ -74,8 +93,10 @@ func genOp(r *kit.Rand, cfg config, g *genState, faults bool, unreach bool) op {
 	case 0:
 		o.K = "read"
 		o.Exp = !sql && r.Chance(0.3)
+		o.Panic = r.Chance(0.02)
 	case 1:
 		o.K = "index"
+		o.Panic = r.Chance(0.02)
 	case 2:
 		o.K = "get"
 		o.IsI = sql && r.Chance(0.3)
@@ -234,7 +255,7 @@ func runHistory(w *world, c *kit.Case, cfg config, ops []op, wait bool) *hist {
 	c.Obs("invalidations_of_present_entries", int64(h.invalidated))
 	c.Obs("entries_expired_by_clock", int64(h.expired))
 	nontrivial := h.hits > 0 && (h.invalidated > 0 || h.expired > 0 || h.fault > 0)
-	parts := []any{cfg.Flavour, cfg.E, cfg.NE, cfg.StrPK}
+	parts := []any{cfg.Flavour, cfg.E, cfg.NE, cfg.HasE, cfg.HasNE, cfg.StrPK}
 	for _, s := range h.log {
 		parts = append(parts, s)
 	}
